@@ -390,7 +390,7 @@ def advance_adi(U,U01,P1,P2,x,ii):
     if np.mod(ii,2) == 0:
         for jj in range(len(x)):
             if np.sum(U01[:,jj]) > 1:
-                U[:,jj] = dadi.Integration.tridiag.tridiag(P1[jj,0,:],P1[jj,1,:],P1[jj,2,:],U[:,jj])
+                U[:,jj] = dadi.Integration.tridiag.tridiag(P1[jj,0,:],P1[jj,1,:],P1[jj,2,:],np.ascontiguousarray(U[:,jj]))
         for ii in range(len(x)):
             if np.sum(U01[ii,:]) > 1:
                 U[ii,:] = dadi.Integration.tridiag.tridiag(P2[ii,0,:],P2[ii,1,:],P2[ii,2,:],U[ii,:])
@@ -400,7 +400,7 @@ def advance_adi(U,U01,P1,P2,x,ii):
                 U[ii,:] = dadi.Integration.tridiag.tridiag(P2[ii,0,:],P2[ii,1,:],P2[ii,2,:],U[ii,:])
         for jj in range(len(x)):
             if np.sum(U01[:,jj]) > 1:
-                U[:,jj] = dadi.Integration.tridiag.tridiag(P1[jj,0,:],P1[jj,1,:],P1[jj,2,:],U[:,jj])
+                U[:,jj] = dadi.Integration.tridiag.tridiag(P1[jj,0,:],P1[jj,1,:],P1[jj,2,:],np.ascontiguousarray(U[:,jj]))
     return U
 
 def advance_cov(U,C,x,dx):
@@ -428,9 +428,11 @@ def advance1D(u,P):
         P (array): transition matrix
     """
     a = np.concatenate((np.array([0]),np.diag(P,-1)))
-    b = np.diag(P)
+    # The compiled solver reads its arguments through raw pointers: hand it contiguous memory
+    # (np.diag returns a strided view).
+    b = np.ascontiguousarray(np.diag(P))
     c = np.concatenate((np.diag(P,1),np.array([0])))
-    u = dadi.Integration.tridiag.tridiag(a,b,c,u)
+    u = dadi.Integration.tridiag.tridiag(a,b,c,np.ascontiguousarray(u, dtype=float))
     return u
 
 def advance_line(x,phi,P):
